@@ -39,6 +39,29 @@ class HarnessHorizon(HarnessSignal):
     pass
 
 
+class HarnessBug(HarnessSignal):
+    """A programming error inside the simulation.  Raised as a BaseException so that the client under
+    test cannot turn it into a Disconnected event: the check then ends with a harness error (exit 2)."""
+
+
+BUG_LOG = []       # every HarnessBug raised in this process (checked by the runner after each case)
+
+_BUG_TYPES = (TypeError, AttributeError, KeyError, IndexError, NameError, AssertionError, ZeroDivisionError)
+
+
+def _guard(fn):
+    def wrapper(*a, **k):
+        try:
+            return fn(*a, **k)
+        except _BUG_TYPES as error:
+            import traceback
+            BUG_LOG.append("%s in simnet.%s: %s" % (type(error).__name__, fn.__name__, error))
+            raise HarnessBug("%s in simnet.%s: %s\n%s" % (type(error).__name__, fn.__name__, error,
+                                                          traceback.format_exc()))
+    wrapper.__name__ = fn.__name__
+    return wrapper
+
+
 class InjectedError(RuntimeError):
     """The 'arbitrary exception' fault kind."""
 
@@ -131,6 +154,10 @@ class _SslShim(object):
     def create_default_context(self, *a, **k):
         return _SslContext()
 
+    def __getattr__(self, name):
+        # everything else (exception classes, constants) is the real module's
+        return getattr(_real_ssl, name)
+
 
 class _OsShim(object):
     def __init__(self, real_os):
@@ -215,7 +242,8 @@ class SockState(object):
         self.shutdown_called = False
         self.finalised = False       # object was garbage collected
         self.timeout = None
-        self.broken = False          # connection reset
+        self.broken = False          # connection reset / transport failed for good
+        self.break_kind = "reset"    # how a broken transport fails: reset | tls_error | tls_eof | io_error
         self.inbox = deque()         # raw arrivals not yet read
         self.eof = False             # peer's FIN has arrived
         self.eof_delivered = 0       # times recv returned b''
@@ -276,7 +304,7 @@ class SockState(object):
                 self.base_t = max(self.base_t, now)
                 self.step_i += 1
                 continue
-            dt = step[-1] if kind != "stream" else step[3]
+            dt = step[1] if kind != "stream" else step[3]
             due = self.base_t + dt
             if due > now:
                 return
@@ -292,7 +320,10 @@ class SockState(object):
             elif kind == "eof":
                 self.eof = True
             elif kind == "reset":
+                # ["reset", dt] or ["reset", dt, kind]: from here on the transport fails for good
                 self.reset_pending = True
+                if len(step) > 2 and step[2]:
+                    self.break_kind = step[2]
             elif kind == "pause":
                 pass
             else:
@@ -310,7 +341,7 @@ class SockState(object):
                      "wait_requests": kind == "wait_requests" and len(self.requests) >= step[1],
                      "wait_request": self.request is not None}[kind]
             return self.sim.now if ready else None
-        dt = step[-1] if kind != "stream" else step[3]
+        dt = step[1] if kind != "stream" else step[3]
         return self.base_t + dt
 
     def raw_readable(self):
@@ -421,10 +452,10 @@ class SimSocket(object):
         self._st.sim.sock_connect(self._st, sa)
 
     def sendall(self, data):
-        self._st.sim.sock_send(self._st, data)
+        self._st.sim.sock_send(self._st, bytes(memoryview(data)))     # TypeError for str, like a socket
 
     def send(self, data):
-        self._st.sim.sock_send(self._st, data)
+        self._st.sim.sock_send(self._st, bytes(memoryview(data)))
         return len(data)
 
     def recv_into(self, buf, nbytes=0):
@@ -575,6 +606,21 @@ class Sim(object):
             raise InjectedError("injected arbitrary exception")
         raise HarnessHang("unknown fault kind %r" % (f,))
 
+    def raise_broken(self, st, sending=False):
+        """The error a transport that has failed for good keeps reporting (every later read fails
+        the same way; the TLS kinds only exist on a TLS-wrapped socket)."""
+        kind = st.break_kind if (st.tls or not st.break_kind.startswith("tls_")) else "reset"
+        if kind == "tls_error":
+            raise _real_ssl.SSLError(_real_ssl.SSL_ERROR_SSL, "[SSL: DECRYPTION_FAILED_OR_BAD_RECORD_MAC] "
+                                     "decryption failed or bad record mac")
+        if kind == "tls_eof":
+            raise _real_ssl.SSLEOFError(_real_ssl.SSL_ERROR_EOF, "EOF occurred in violation of protocol")
+        if kind == "io_error":
+            raise OSError(errno.EHOSTUNREACH, "No route to host")
+        if sending:
+            raise BrokenPipeError(errno.EPIPE, "Broken pipe")
+        raise ConnectionResetError(errno.ECONNRESET, "Connection reset by peer")
+
     # -- attempts / sockets ---------------------------------------------------
     def attempt(self):
         if 0 <= self.attempt_i < len(self.attempts):
@@ -585,6 +631,7 @@ class Sim(object):
         self.log.append((op, st.sid if st is not None else -1, data, self.now,
                          self.actor, self.ev_index))
 
+    @_guard
     def getaddrinfo(self, host, port):
         self.attempt_i += 1
         self.addr_cursor = 0
@@ -610,6 +657,7 @@ class Sim(object):
                             ("192.0.2.%d" % (i + 1), port)))
         return out
 
+    @_guard
     def new_socket(self, af):
         att = self.attempt()
         if att is None:
@@ -629,6 +677,7 @@ class Sim(object):
         self.log_op("socket", st, i)
         return sock
 
+    @_guard
     def wrap_tls(self, sock, hostname):
         st = sock._st
         f = self.fault("wrap")
@@ -639,8 +688,39 @@ class Sim(object):
         st.tls_host = hostname
         t = SimTLSSocket(st, sock)
         self.sock_refs.append(weakref.ref(t))
+        if st.connected:
+            # like ssl: wrapping a CONNECTED socket performs the handshake at once, and a socket
+            # whose handshake fails there is closed before the error is raised
+            try:
+                self.tls_handshake(st)
+            except Exception:
+                st.closed = True
+                self.log_op("close", st, "by ssl after a failed handshake")
+                raise
         return t
 
+    def tls_handshake(self, st):
+        """The TLS handshake of one address ({"tls": outcome} in its spec): it runs inside connect() of a
+        socket that was wrapped before connecting, or inside wrap_socket() of a connected one."""
+        how = st.spec.get("tls", "ok")
+        self.log_op("tls_handshake", st, how)
+        if how == "ok":
+            return
+        st.broken = True
+        if how == "reset":
+            raise ConnectionResetError(errno.ECONNRESET, "Connection reset by peer")
+        if how == "eof":
+            st.break_kind = "tls_eof"
+            raise _real_ssl.SSLEOFError(_real_ssl.SSL_ERROR_EOF, "EOF occurred in violation of protocol")
+        if how == "cert":
+            st.break_kind = "tls_error"
+            raise _real_ssl.SSLError(_real_ssl.SSL_ERROR_SSL, "[SSL: CERTIFICATE_VERIFY_FAILED] certificate verify failed")
+        if how == "timeout":
+            self.now += st.timeout or 0.0
+            raise _real_socket.timeout("_ssl.c: The handshake operation timed out")
+        raise HarnessHang("bad tls outcome %r" % (how,))
+
+    @_guard
     def sock_connect(self, st, sa):
         self.log_op("connect", st, sa)
         how = st.spec.get("connect", "ok")
@@ -648,6 +728,8 @@ class Sim(object):
             st.connected = True
             st.peer = sa
             st.base_t = self.now
+            if st.tls:
+                self.tls_handshake(st)
             return
         if how == "refused":
             raise ConnectionRefusedError(errno.ECONNREFUSED, "Connection refused")
@@ -665,6 +747,7 @@ class Sim(object):
         if st.after_end_ops > 40:
             raise HarnessHang("client keeps using the transport after it ended")
 
+    @_guard
     def sock_send(self, st, data):
         data = bytes(data)
         f = self.fault("send")
@@ -673,7 +756,7 @@ class Sim(object):
             raise OSError(errno.EBADF, "Bad file descriptor")
         if st.broken:
             self.log_op("send_fail", st, data)
-            raise BrokenPipeError(errno.EPIPE, "Broken pipe")
+            self.raise_broken(st, sending=True)
         if f:
             self.log_op("send_fail", st, data)
             self.raise_fault(f, st)
@@ -684,6 +767,7 @@ class Sim(object):
         self.log_op("send", st, data)
         st.note_write(data)
 
+    @_guard
     def sock_recv(self, st, count):
         st.recv_calls += 1
         f = self.fault("recv")
@@ -698,8 +782,8 @@ class Sim(object):
             self.raise_fault(f, st)
         if st.broken:
             self._ended(st)
-            self.log_op("recv_fail", st, "reset")
-            raise ConnectionResetError(errno.ECONNRESET, "Connection reset by peer")
+            self.log_op("recv_fail", st, st.break_kind)
+            self.raise_broken(st)
         if st.tls and st.record:
             return self._serve_record(st, count)
         st.pump()
@@ -750,8 +834,8 @@ class Sim(object):
         if st.reset_pending:
             st.reset_pending = False
             st.broken = True
-            self.log_op("recv_fail", st, "reset")
-            raise ConnectionResetError(errno.ECONNRESET, "Connection reset by peer")
+            self.log_op("recv_fail", st, st.break_kind)
+            self.raise_broken(st)
         # EOF
         st.eof_delivered += 1
         self._ended(st)
@@ -772,6 +856,7 @@ class Sim(object):
                          getattr(st, "record_due", self.now)))
         return out
 
+    @_guard
     def sock_shutdown(self, st, how):
         f = self.fault("shutdown")
         self.log_op("shutdown", st, None)
@@ -783,6 +868,7 @@ class Sim(object):
         if st.broken or not st.connected:
             raise OSError(errno.ENOTCONN, "Transport endpoint is not connected")
 
+    @_guard
     def sock_close(self, st):
         f = self.fault("close")
         self.log_op("close", st, None)
@@ -802,6 +888,7 @@ class Sim(object):
                 rec[2] = True
         self.log.append(("selector_close", -1, None, self.now, self.actor, self.ev_index))
 
+    @_guard
     def wait_readable(self, sock, timeout):
         st = sock._st
         f = self.fault("wait")
